@@ -15,6 +15,11 @@ CHECKS = {
    text="Same machinery as C03 with the absolute-reference kinds: embed_label (size 4/8/register), x86-32 [label+disp] absolute operands with trailing immediates, jmp/call to absolute immediates (rel32, or FF /4,/2 through the 64-bit address table), x86-64 [abs] memory operands (default/abs/rel addressing), AArch64 b/bl to absolute targets; bases low/high/straddling 2^31, 2^32, 2^46, targets near and > 2 GiB away in both directions, base known at init vs assigned by relocate_to_base, address table last or followed by a later section, and installation through JitRuntime::add (base = what mmap returns). The spec EVALUATES each site in the relocated image (where does the instruction transfer to / what does it address; table slot bytes must be inside the image and hold the target) and requires base + section offset + label offset (+addend) or the requested absolute target; unreachable targets must be reported by relocate_to_base/emit; installed bytes must equal the relocated section buffers.",
    note="Trusted: TLC, CodeRef.tla, harness (raw bytes + address-table bytes + memcmp of installed memory reported as a boolean). Expression relocations other than label deltas are not generated.",
    technique="TLA+ contract spec evaluating relocated reference sites + trace validation of recorded executions (TLC)"),
+ "C08": dict(
+   category="model_checking", design_ref="DESIGN.md §4 C08, §8",
+   text="TLC checks exhaustively that BuilderImpl (builder.cpp's add_node/add_after/add_before/remove_node/remove_nodes/section/update_section_links/bind transcribed on first/last/next/prev/cursor/active/section-link state) refines the contract Builder.tla and keeps 5 structural invariants for all edit/emit sequences of <=5 nodes/<=6 ops (quick), <=6/6 and <=5/7 (thorough), 2 sections, 2 labels, incl. removing ranges that contain the cursor, re-insertion and double bind. The real x86::Builder (x64, x86-32), a64::Builder and x86::Compiler (physical registers) are bound by trace validation: TLC-exported edit scripts and seeded random programs (93 x86 + 24 a64 instruction templates with 0-6 operands, every option bit, {k}{z}/rep extra registers, inline comments, labels, align, raw/typed data with repeat, const pools, embed_label(+delta), comments, 1-4 sections, cursor moves, remove/re-insert) run under ASan/UBSan; every call must be a contract step: stored payload = call; next-walk, prev-walk, cursor and active set = abstract list; the calls serialize_to hands over = recorded calls in list order; finalize() yields the same digest (section bytes, label positions, relocations) and the same first-error position as a fresh Assembler fed the abstract order.",
+   note="Trusted: TLC, Builder.tla, the harness projection/payload reader/digest/direct run. Errors compared by position and success class, not by code. Empty list, virtual registers/functions and logger output not covered.",
+   technique="TLA+ contract + refinement of impl-shaped spec (TLC) + trace validation of recorded executions and TLC-generated edit scripts"),
  "C09": dict(
    category="model_checking", design_ref="DESIGN.md §4 C09, §8",
    text="TLC checks exhaustively (tiny blocks, all histories of alloc/release/shrink/reset up to depth 5 quick / 7 thorough, padding and immediate-release variants) that the transcribed pool algorithm JitAllocImpl (bit vectors, search window, largest-unused cache, empty/dirty/incremental flags, cursor, block doubling) refines the contract JitAlloc.tla and keeps its structural invariants. The real allocator is bound to the same contract by trace validation: TLC-simulated histories scaled to real block sizes and long seeded random histories over all option sets x granularities 64/128/256 x block sizes are executed (ASan/UBSan build); every recorded call must be a contract step: spans non-null, granule aligned, >= request, disjoint in rx and rw view, contents intact at every step, rw/rx aliasing, query exact, foreign pointers refused, statistics exact, fill pattern on freed memory, released memory reusable without a new block, retention policy after release-all/reset, is_initialized.",
